@@ -172,6 +172,13 @@ def units(tier, seed=0):
                                enforce='@F{%s}' % elem.RXE[key], replace=[], props=props, layer='element.hpp',
                                kind='bounded(span items <= 2, block <= 16 storage units, loops unwound)', unwind=24,
                                cdefs=['VF_BLOCK_K=1'] + (['VF_TRACKED=1'] if tracked else []), config='element: %s, allocator traits F=%d' % (spec, f)))
+    for spec, f in [('c4 v4t', 0)]:
+        txt, L = elem.c_unit(spec, f)
+        txt = elem.exc_text(txt, L)
+        us.append(dict(id='exc.elem.%s.F%d.move_assign' % (L.tag, f), tu='elem_%s_F%d' % (L.tag, f), gen=elem.cxx_tu(spec, f), exceptions=True, template_text=txt, vars={},
+                       entry='h_e_move_assign_watch_target', enforce='@F{%s}' % elem.RXE['move_assign'], replace=[], props=['C17', 'C06'], layer='element.hpp',
+                       kind='bounded(span items <= 2, block <= 16 storage units, loops unwound)', unwind=8,
+                       cdefs=['VF_BLOCK_K=1', 'VF_TRACKED=1', 'VF_ALLOC_MAY_FAIL=1'], config='allocation failure: element %s, allocator traits F=%d' % (spec, f)))
     for spec in refops.REF_LISTS[tier]:
         txt, L = refops.c_unit(spec)
         cxx = refops.cxx_tu(spec)
